@@ -134,6 +134,24 @@ func c13Wallets() []c13Wallet {
 		a, k = entryKeys(te, ext1, chg0)
 		out = append(out, c13Wallet{Name: "bip44-unlocked-after-generating-while-locked", W: ul, Addr: a, Key: k})
 	}
+
+	// collection wallet filled by IMPORT batches that repeat keys it already holds (before, between and after new keys): every
+	// stored entry must keep its own secret.  w.addr0 / w.addr1 are two keys imported after a repeated one.
+	{
+		ks := collectionKeys(2, 5)
+		cw := newCollection(ks[:1], crypto.CryptoTypeSha256Xor) // holds K0
+		_, err := cw.GenerateAddresses(wallet.OptionCollectionPrivateKeys([]cipher.SecKey{ks[0], ks[1], ks[2]}))
+		must(err)
+		_, err = cw.GenerateAddresses(wallet.OptionCollectionPrivateKeys([]cipher.SecKey{ks[3], ks[1], ks[4], ks[0]}))
+		must(err)
+		ces, _ := cw.GetEntries()
+		if len(ces) < 5 { // (the wallet may or may not keep repeated keys as separate entries)
+			panic(fmt.Sprintf("fixture: imported collection wallet has %d entries", len(ces)))
+		}
+		fa := [3]cipher.Address{cipher.MustAddressFromSecKey(ks[2]), cipher.MustAddressFromSecKey(ks[4]), foreignAddr}
+		fk := [3]cipher.SecKey{ks[2], ks[4], foreignKey}
+		out = append(out, c13Wallet{Name: "collection-imported-with-repeated-keys", W: cw, Addr: fa, Key: fk})
+	}
 	return out
 }
 
